@@ -421,3 +421,32 @@ PROPS["C18"] = {
         {"name": "rapid", "mode": "rapid", "run": "TestC18Rapid", "checks": {"quick": 16000, "thorough": 320000}},
     ],
 }
+
+PROPS["C19"] = {
+    "level": "exploration",
+    "rule": ("cdi unit: a generated layout (1..4 existing, distinct directories with valid / invalid / ignored entries, shadowing and conflicts) "
+             "is passed as '-d a,b' or as repeated --spec-dirs, with --schema builtin / none / default; 1..3 drawn sub-commands per layout "
+             "among devices, devices -v -o json|yaml, vendors, classes, specs, dirs, validate, inject <oci file json|yaml> <1..3 glob "
+             "patterns> -o json|yaml. Oracle (differential): an in-process cache with default options over the same directories with the "
+             "same Spec validator installed. If it reports errors: the command must exit non-zero and the set of 'Spec file <path>:' "
+             "lines must equal the error keys. Otherwise exit 0 and the parsed output equals ListDevices / GetDevice definitions and "
+             "paths / ListVendors with Spec counts / ListClasses / Spec file paths / directories with priorities; inject output parsed "
+             "back equals the OCI spec after InjectDevices of the sorted glob matches. validate unit: generated documents (the C17 "
+             "domain) as file argument or on stdin, JSON or YAML, with --schema builtin / none / copy of the shipped schema / empty; the "
+             "exit status must be non-zero iff schema.Load(name).ValidateFile / ValidateData fails in-process. Non-trivial iff the layout "
+             "has >= 2 directories with shadowing, or cache errors, or inject patterns matching devices of >= 2 files (cdi), a mutated "
+             "document (validate); distinct = distinct (layout, command line) / (document, options)."),
+    "assumptions": ["/etc/cdi and /var/run/cdi do not exist or are irrelevant once --spec-dirs is given", "the monitor sub-command (interactive, unbounded) is not exercised",
+                    "the classes listing repeats a vendor once per Spec file; only class names are compared"],
+    "manifest": {
+        "text": "Differential test of the real cdi and validate binaries (rebuilt from /repo) against the library in-process on generated directory populations, command lines and documents; sampling.",
+        "note": "trusted: output parsers in props/c19_test.go; the library as reference (its own behaviour is judged by C01-C05, C17)",
+        "technique": "property-based testing: differential (command-line binary vs library), output parsed back and compared as JSON images",
+    },
+    "helpers": ("cdi", "validate"),
+    "health": {"quick": {"cache-errors": 100, "clean-cache": 300, "sub:inject": 50, "sub:devices-v": 50, "sub:specs": 50, "stdin": 100, "document-invalid": 100, "document-valid": 50}},
+    "units": [
+        {"name": "cdi", "mode": "rapid", "run": "TestC19Cdi", "checks": {"quick": 1600, "thorough": 32000}},
+        {"name": "validate", "mode": "rapid", "run": "TestC19Validate", "checks": {"quick": 1600, "thorough": 32000}},
+    ],
+}
